@@ -1,10 +1,13 @@
 /-
   JSON request → `SC.Op`, state → JSON snapshot (same snapshot layout as Drive/HG.lean).
   Used by Drivers/SC.lean.  `has_simplex` is a query: the state is unchanged and the answer is in "res".
+  `copy` / `pickle` / `construct` (`SimplicialComplex(S, **attr)`) are queries too: the state is unchanged, "out" is
+  the outcome of the cloning call and "clone" is the snapshot of the clone (null when the call raised).
 -/
 import XgiModel.Proto
 import XgiModel.Drive.HG
 import XgiModel.C03.SC
+import XgiModel.C03.Copy
 open Lean Xgi.Proto
 
 namespace Xgi.SC.Drive
@@ -70,6 +73,11 @@ def op? (j : Json) : Option Op := do
   | "freeze" => pure .freeze
   | _ => none
 
+/-- answer of a cloning query: the source's snapshot, the outcome of the call, the clone's snapshot -/
+def cloneJson (s : HG) (r : HG × Outcome) : Json :=
+  Json.mkObj (("out", outcomeJson r.2) ::
+    ("clone", if r.2.isErr then Json.null else Json.mkObj (snapshot r.1)) :: snapshot s)
+
 def handle (s : HG) (j : Json) : HG × Json :=
   match getStr? j "op" with
   | some "reset" => (HG.empty, respond HG.empty .ok)
@@ -78,6 +86,15 @@ def handle (s : HG) (j : Json) : HG × Json :=
     match getIds? j "members" with
     | none => (s, badOp)
     | some ms => (s, Json.mkObj (("out", outcomeJson .ok) :: ("res", Json.bool (hasSimplex s ms)) :: snapshot s))
+  | some "copy" =>
+    match hints? j with
+    | none => (s, badOp)
+    | some h => (s, cloneJson s (SC.copy s h))
+  | some "pickle" => (s, cloneJson s (HG.pickleRoundTrip s, .ok))
+  | some "construct" =>
+    match hints? j, (match getField? j "attr" with | none => some [] | some a => attrsOfJson? a) with
+    | some h, some attr => (s, cloneJson s (SC.ofComplex s attr h))
+    | _, _ => (s, badOp)
   | _ =>
     match op? j with
     | none => (s, badOp)
